@@ -274,3 +274,94 @@ func verif_C04_disciplines() {
 	verifAssert(string(a) == string(b), "C04.pipelined-and-segmented-give-the-same-replies")
 	verifReach("C04.disciplines-end")
 }
+
+// verif_C04_segmentation: six fixed conversations that exercise every framing
+// mode (dot-stuffed DATA lines, BDAT chunks holding CRLF and dots, a refused
+// BDAT whose chunk looks like commands, a message over the size limit, LMTP
+// with two recipients, a line over the length limit) are delivered with one
+// (quick) or two (thorough) cuts at ARBITRARY offsets, and octet by octet. The
+// reply stream, the backend callbacks and the message octets must be those of
+// the unsegmented run.
+func verif_C04_segmentation() {
+	verifPreemptBound(0)
+	verifSchedForkBound(0)
+	convs := []string{
+		"EHLO c\r\nMAIL FROM:<a@v>\r\nRCPT TO:<b@v>\r\nDATA\r\n..x\r\n.y\r\n\r\n.\r\nNOOP\r\nQUIT\r\n",
+		"EHLO c\r\nMAIL FROM:<a@v> BODY=BINARYMIME\r\nRCPT TO:<b@v>\r\nBDAT 4\r\na\r\n.BDAT 3 LAST\r\n\r\n.NOOP\r\nQUIT\r\n",
+		"EHLO c\r\nBDAT 6\r\nNOOP\r\nRSET\r\nBDAT 1 x y\r\nZNOOP\r\nQUIT\r\n",
+		"EHLO c\r\nMAIL FROM:<a@v>\r\nRCPT TO:<b@v>\r\nDATA\r\n12345678\r\n.\r\nNOOP\r\nQUIT\r\n",
+		"LHLO c\r\nMAIL FROM:<a@v>\r\nRCPT TO:<b@v>\r\nRCPT TO:<c@v>\r\nDATA\r\nhi\r\n.\r\nNOOP\r\nQUIT\r\n",
+		"EHLO c\r\nNOOP 789012345678901234567890\r\nNOOP\r\n",
+	}
+	k := verifChoice(len(convs))
+	in := []byte(convs[k])
+	type obs struct {
+		out    []byte
+		kinds  []string
+		bodies [][]byte
+	}
+	run := func(seg int, cuts []int) obs {
+		var o obs
+		be := &vbackend{}
+		be.dataFn = func(_ *vsession, r io.Reader) error {
+			b, e := verifReadAll(r, 3)
+			o.bodies = append(o.bodies, b)
+			if e != io.EOF {
+				return e
+			}
+			return nil
+		}
+		s, _ := verifServer(be)
+		s.EnableBINARYMIME = true
+		s.LMTP = k == 4
+		if k == 3 {
+			s.MaxMessageBytes = 5
+		}
+		if k == 5 {
+			s.MaxLineLength = 20
+		}
+		vc := &vconn{in: in, final: io.EOF, seg: seg, cuts: cuts}
+		c := newConn(vc, s)
+		s.handleConn(c)
+		verifSettle()
+		o.out = vc.out
+		for _, e := range be.trace {
+			o.kinds = append(o.kinds, e.kind+" "+e.arg)
+		}
+		return o
+	}
+	same := func(a, b obs) bool {
+		if string(a.out) != string(b.out) || len(a.kinds) != len(b.kinds) || len(a.bodies) != len(b.bodies) {
+			return false
+		}
+		for i := range a.kinds {
+			if a.kinds[i] != b.kinds[i] {
+				return false
+			}
+		}
+		for i := range a.bodies {
+			if string(a.bodies[i]) != string(b.bodies[i]) {
+				return false
+			}
+		}
+		return true
+	}
+	ref := run(0, nil)
+	_, wf := verifParseReplies(ref.out)
+	verifAssert(wf && len(ref.out) > 0, "C04.segmentation-reference-wellformed")
+	var got obs
+	if verifChoice(8) == 0 {
+		got = run(1, nil)
+	} else {
+		cut1 := nondetInt(1, len(in)-1)
+		cuts := []int{cut1}
+		if verifBound(0, 1) == 1 {
+			cut2 := nondetInt(cut1, len(in)-1)
+			cuts = append(cuts, cut2)
+		}
+		got = run(0, cuts)
+	}
+	verifObserve("c04seg", k, len(ref.out), len(got.out), len(ref.kinds), len(got.kinds))
+	verifAssert(same(ref, got), "C04.segmentation-does-not-change-the-conversation")
+	verifReach("C04.segmentation-end")
+}
